@@ -1,7 +1,8 @@
 (* C02 - Unmarshal reads every valid protobuf encoding of a message to the same values. *)
 From Coq Require Import List ZArith Bool.
 From Pico Require Import Base.Res Base.Mach Wire.Wire Schema.Types Schema.Scalar Ref.Ref
-  Schema.ScalarProofs Dec.Dec Dec.ReaderProofs Wire.VarintProofs Wire.WireProofs.
+  Schema.ScalarProofs Dec.Dec Dec.ReaderProofs Wire.VarintProofs Wire.WireProofs
+  Schema.Gen Schema.Interp Dec.LoopEquiv Dec.LoopInst Schema.DecFlat.
 Import ListNotations.
 Open Scope Z_scope.
 
@@ -21,6 +22,31 @@ Theorem C02_tag : forall num wt rest pf0 pw0 e, valid_number num = true -> 0 <= 
   {| pf := num; pw := wt; buf := rest; err := e |}.
 Proof. exact next_field_tag. Qed.
 
+(* "Fields in any order": picobuf's Loop re-runs the whole Decode body until the input is used up
+   and skips a field nobody consumed. For ANY list of readers with pairwise disjoint match
+   predicates that satisfy the reader contracts this multi-pass loop equals the single-pass
+   parser that dispatches on the pending field (order-insensitive by construction): *)
+Theorem C02_loop_is_dispatch : forall (T dstate : Type) (pfv : dstate -> bool) (blen : dstate -> nat) (skip : dstate -> dstate)
+    (readers : list (reader T dstate)),
+  (forall r st, In r readers -> rmatch T dstate r st = true -> pfv st = true) ->
+  (forall r st t, In r readers -> rmatch T dstate r st = false -> rrun T dstate r st t = (st, t)) ->
+  (forall r st t, In r readers -> rmatch T dstate r st = true ->
+     let '(st', _) := rrun T dstate r st t in (blen st' < blen st)%nat \/ (pfv st' = false /\ (blen st' <= blen st)%nat)) ->
+  (forall i j ri rj st, nth_error readers i = Some ri -> nth_error readers j = Some rj ->
+     rmatch T dstate ri st = true -> rmatch T dstate rj st = true -> i = j) ->
+  (forall st, pfv st = true -> (blen (skip st) < blen st)%nat \/ pfv (skip st) = false) ->
+  forall st t n n', (blen st + 3 <= n)%nat -> (blen st + 2 <= n')%nat ->
+  LoopEquiv.loop T dstate pfv blen skip readers n st t = loop1 T dstate pfv skip readers n' st t.
+Proof. exact loop_equiv. Qed.
+(* instance on emitted programs: the Decode of a message of singular scalar fields (all 15 kinds,
+   distinct valid numbers) under Unmarshal's Loop IS the single-pass dispatch parser *)
+Theorem C02_flat_message : forall progs F rec fields st fs un n n',
+  NoDup (map (fun f => snd (fst f)) fields) -> Forall (fun f => valid_number (snd (fst f)) = true) fields ->
+  (blen st + 3 <= n)%nat -> (blen st + 2 <= n')%nat ->
+  Dec.loop n (dec_body progs F rec (map flat_op fields)) st (fs, un) =
+  let '(st', fs') := loop1 _ _ pfv skip (flat_readers fields) n' st fs in (st', (fs', un)).
+Proof. exact flat_unmarshal_single_pass. Qed.
+
 (* PARTIAL. pico_unmarshal = ref_decode on all inputs (and the closure of ref_decode under
    reordering / repacking / non-minimal varints / splitting / unknown fields) is not proved;
    it is decided per run on the rewritten-encoding stream: implementation = model = ref_decode
@@ -32,3 +58,5 @@ Proof. repeat split; vm_compute; reflexivity. Qed.
 Print Assumptions C02_value_rules.
 Print Assumptions C02_field.
 Print Assumptions C02_tag.
+Print Assumptions C02_loop_is_dispatch.
+Print Assumptions C02_flat_message.
